@@ -5,7 +5,7 @@ import streamgen as gen
 
 
 def parse_layout(s):
-    return [] if s == "-" else [tuple(int(x) for x in c.split(":")) for c in s.split(",")]
+    return sg.parse_layout(s)[0]
 
 
 def parse_user(s):
@@ -18,18 +18,29 @@ def parse_user(s):
     return out
 
 
+def one_sample_line(ty, vals, mlen=0, flags=0):
+    """a payload with a single sample of a single-channel layout carrying `vals` (model syntax)"""
+    layout = [(ty, len(vals), mlen)]
+    payload = sg.ref_wire(layout, {}, [(0, vals, [7] * len(sg.meta_atoms(mlen)))], flags=flags)
+    return f"stream dec {sg.layout_str(layout)} - {hexs(payload)}"
+
+
 class C04(Prop):
     id = "C04"
     lean_module = "NxsModel.Props.C04"
-    rule = ("random device layouts (1..8 channels and 200/255-channel layouts) over the 18 standard types and user "
-            "NUM/CHAR/COMPLEX types, vdim 1..255, mlen 0..255; multi-sample payloads built by an independent "
-            "reference encoder from per-type extremes, NaN/inf/subnormals, arbitrary char bytes; malformed payloads "
-            "(truncated, unknown channel, trailing bytes); distinct = distinct (layout,user,payload); "
-            "non-trivial = payload with at least one sample")
-    assumptions = ["value glue (streamglue.canon_value): ints must be Python ints equal to the raw value; floats must "
-                   "re-pack to the wire bits (NaN as a class); fixed-point must equal float(Fraction(raw, 2**frac)); "
-                   "char text must encode back to the wire bytes when they are valid UTF-8, otherwise only the absence "
-                   "of an exception and the sample structure are required"]
+    rule = ("random device layouts (1..8 channels and 129/200/255-channel layouts) over the 18 standard types and user "
+            "NUM/CHAR/COMPLEX types (ids 20..31, random format strings), vdim over 1..255, mlen over 0..255, en / critical / "
+            "reserved type bits / divider / device flags of the device object varied; multi-sample payloads built by an "
+            "independent reference encoder from per-type extremes, NaN/inf/subnormals, arbitrary char bytes (overlong, "
+            "surrogate, truncated UTF-8); sweeps: every raw value of the 8/16-bit types, the 2^k / 2^k±1 / complement "
+            "patterns of the 32/64-bit ones, every float32 exponent, every mlen 0..255, every vdim 1..255, every channel "
+            "id 0..254, every flags byte, every single char byte; malformed payloads (truncated, unknown channel, trailing "
+            "bytes); distinct = distinct (layout,user,payload); non-trivial = payload with at least one sample")
+    assumptions = ["value glue (streamglue.canon_value): ints must be Python ints equal to the raw value read from the wire "
+                   "with the harness' own hand-written type table; floats must re-pack to the wire bits (NaN as a class); "
+                   "fixed-point must equal float(Fraction(raw, 2**frac)) — this is the only place where 'the code divides "
+                   "by the scale' is checked; char text must encode back to the wire bytes when they are valid UTF-8, "
+                   "otherwise only the absence of an exception and the sample structure are required"]
 
     def __init__(self):
         from nxslib.proto.parse import Parser
@@ -39,9 +50,10 @@ class C04(Prop):
 
     def cases(self, rng, tier):
         T = tier == "thorough"
-        for it in range(1500 if T else 300):
+        for it in range(5000 if T else 300):
             user = gen.gen_user(rng, decode_only=True)
             layout = gen.gen_layout(rng, user, big=(it % 50 == 49))
+            xs = gen.gen_xs(rng, layout)
             ns = rng.choice([0, 1, 1, 2, 3, 5, rng.randrange(0, 12)])
             smps = [gen.gen_sample(rng, layout, user, rng.randrange(len(layout))) for _ in range(ns)]
             payload = sg.ref_wire(layout, user, smps, flags=rng.choice([0, 0, 1, rng.randrange(256)]))
@@ -59,24 +71,59 @@ class C04(Prop):
             elif r < 0.17:
                 payload = b""
                 tag = "empty"
-            yield f"stream dec {sg.layout_str(layout)} {sg.user_str(user)} {hexs(payload)}", tag
-        # per-type sweeps: all 256 raw values of the 8-bit types, 16-bit types sampled densely
-        for ty in (2, 3):
-            for v in range(256):
-                yield f"stream dec {ty}:1:0 - {hexs(bytes([0, 0, v]))}", "sweep-8bit"
-        for ty in (4, 5, 12, 13):
-            for v in (range(0, 65536, 1 if T else 257)):
-                yield f"stream dec {ty}:1:0 - {hexs(bytes([0, 0, v & 255, v >> 8]))}", "sweep-16bit"
+            yield f"stream dec {sg.layout_str(layout, xs)} {sg.user_str(user)} {hexs(payload)}", tag
+        # per-type sweeps of every standard type: all raws of the 8/16-bit types, bit-pattern families of the wider ones
+        for ty in range(2, 18):
+            vals = gen.sweep_values(ty, T)
+            for ch in gen.chunks(vals, 255):
+                yield one_sample_line(ty, ch), f"sweep-ty{ty}"
+        # char data: every single byte, the malformed-UTF-8 families, in CHAR and WCHAR channels, alone and followed
+        # by another sample
+        for ty in (18, 19):
+            for b in range(256):
+                yield f"stream dec {ty}:1:0 - {hexs(bytes([0, 0, b]))}", "char-byte"
+            for bad in gen.BAD_UTF8:
+                yield f"stream dec {ty}:{len(bad)}:1,2:1:0 - {hexs(bytes([0, 0]) + bad + bytes([9, 1, 7]))}", "char-bad"
+        if T:
+            for hi in range(0x80, 0x100):
+                pl = bytes([0]) + b"".join(bytes([0, hi, lo]) for lo in range(256))
+                yield f"stream dec 18:2:0 - {hexs(pl)}", "char-2byte"
+        # every metadata length, every vector dimension, every channel id, every flags byte
+        for mlen in range(256):
+            ty = rng.choice([1, 2, 5, 10, 13, 18])
+            vd = 0 if ty == 1 else rng.choice([1, 2])
+            layout = [(ty, vd, mlen), (1, 0, 0)]
+            smps = [gen.gen_sample(rng, layout, {}, 0), (1, [], []), gen.gen_sample(rng, layout, {}, 0)]
+            yield f"stream dec {sg.layout_str(layout)} - {hexs(sg.ref_wire(layout, {}, smps))}", "mlen-sweep"
+        for vdim in range(1, 256):
+            ty = rng.randrange(2, 20)
+            layout = [(ty, vdim, rng.choice([0, 0, 1, 3]))]
+            smps = [gen.gen_sample(rng, layout, {}, 0) for _ in range(rng.choice([1, 2]))]
+            yield f"stream dec {sg.layout_str(layout)} - {hexs(sg.ref_wire(layout, {}, smps))}", "vdim-sweep"
+        layout = [(rng.randrange(1, 20), 1, rng.choice([0, 0, 1, 3])) for _ in range(255)]
+        layout = [(t, 0 if t == 1 else v, m) for t, v, m in layout]
+        order = list(range(255))
+        rng.shuffle(order)
+        for part in gen.chunks(order, 85):
+            smps = [gen.gen_sample(rng, layout, {}, c) for c in part]
+            yield f"stream dec {sg.layout_str(layout)} - {hexs(sg.ref_wire(layout, {}, smps))}", "chan-sweep"
+        for fl in range(256):
+            yield f"stream dec 5:2:2 - {hexs(bytes([fl]) + (bytes([0, 0xfe, 0xff, 0xff, 0x7f, 0xef, 0xbe]) if fl % 3 else b''))}", "flags-sweep"
         # types with mismatching dimension / unknown types (error branches)
         for lay, pl in [("1:3:0", "0000"), ("2:0:0", "0000"), ("0:1:0", "000000"), ("25:4:0", "000000000000"),
                         ("18:0:0", "0000"), ("1:0:3", "0000010203"), ("1:0:3", "00000102")]:
             yield f"stream dec {lay} - {pl}", "odd-layout"
+        # user types declared CHAR whose single value is not bytes (the client has no text to make: AttributeError),
+        # user type whose format size differs from vdim
+        for lay, us, pl in [("20:1:0", "20/2/1.B", "000041"), ("20:4:0", "20/2/1.i", "000041424344"), ("20:3:0", "20/1/1.i", "000041424344"),
+                            ("20:1:0", "20/2/1.c", "0000ff"), ("31:2:1", "31/1/1.h", "0000feff07")]:
+            yield f"stream dec {lay} {us} {pl}", "odd-user"
 
     def impl(self, line):
         t = line.split(" ")
-        layout, user, payload = parse_layout(t[2]), parse_user(t[3]), unhex(t[4])
+        (layout, xs), user, payload = sg.parse_layout(t[2]), parse_user(t[3]), unhex(t[4])
         try:
-            dev = sg.real_device(layout)
+            dev = sg.real_device(layout, xs)
             p = self._parsers.get(t[3])
             if p is None:
                 p = self._parsers[t[3]] = self.Parser(user_types=sg.real_user(user))
@@ -90,13 +137,21 @@ class C04(Prop):
 
     def oracle(self, line, impl_out=None):
         """a payload that is well-formed for the layout decodes, consumed exactly, to one sample per encoded sample
-        with the values on the wire"""
+        with the values on the wire (read with the harness' own type table, streamglue.STD)"""
         t = line.split(" ")
-        layout, user, payload = parse_layout(t[2]), parse_user(t[3]), unhex(t[4])
+        (layout, xs), user, payload = sg.parse_layout(t[2]), parse_user(t[3]), unhex(t[4])
         if any(ty not in sg.STD and ty not in user for ty, _, _ in layout) or not payload:
             return None
         if any((ty == 1) != (v == 0) for ty, v, _ in layout if ty in sg.STD) or len(layout) > 255:
             return None
+        for ty, v, _ in layout:
+            if ty not in sg.STD:
+                dt, items = user[ty]
+                atoms = sg.user_atoms(items)
+                if sg.user_size(items) != v:
+                    return None      # a user type is exactly vdim bytes long
+                if dt == sg.CHAR and len(atoms) == 1 and atoms[0][0] not in "cs":
+                    return None      # declared text, but the single value is a number: no well-formed samples
         parsed = sg.ref_parse(layout, user, payload)
         if parsed is None:
             return None
@@ -123,7 +178,7 @@ class C04(Prop):
             exp.append(f"{chan},{dt},{vdim},{mlen},[{';'.join(vs)}],[{';'.join(str(int.from_bytes(m, 'little')) for m in metas)}]")
         want = f"ok {payload[0]} " + ("|".join(exp) or "-")
         if out != want:
-            return {"key": "decode-values", "what": "decoded samples differ from the values on the wire",
+            return {"key": "decode-values", "what": "decoded samples differ from the values on the wire: " + sg.first_difference(want, out),
                     "expected": want[:400], "observed": out[:400]}
         return None
 
